@@ -502,6 +502,14 @@ class SymEx:
                 bb = t['target']
                 continue
             if k == 'switch':
+                exps = (t.get('span') or {}).get('exps') or []
+                if any(e.endswith('cfg') for e in exps) and any(e.startswith('debug_assert') for e in exps):
+                    # `if cfg!(debug_assertions) { assert!(..) }`: a self-check that either does nothing or stops the program;
+                    # for the values computed it is transparent (whether it can fire is C20's question)
+                    skip = [b2 for v, b2 in t['arms'] if v == '0']
+                    if skip:
+                        bb = skip[0]
+                        continue
                 d = self.operand(st, fid, t['discr'])
                 if d[0] == 'ref':
                     d = self.load(st, d)
